@@ -56,8 +56,8 @@ private theorem pow_cs (k : Nat) (h : 1 ≤ k) : 256 ^ (k + 1 - 1) = 256 * 256 ^
   obtain ⟨j, rfl⟩ : ∃ j, k = j + 1 := ⟨k - 1, by omega⟩
   simp [pow_succ]; ring
 
-theorem V_mk1 (l r c : Nat) (o : List UInt8) :
-    V { low := l, cacheSize := 1, range := r, cache := c, outRev := o } = (numLE o * 256 + c) * 4294967296 + l := by
+theorem V_mk1 (l r c t : Nat) (o : List UInt8) :
+    V { low := l, cacheSize := 1, range := r, cache := c, outTotal := t, outRev := o } = (numLE o * 256 + c) * 4294967296 + l := by
   simp only [V, pend]
   simp
 
@@ -71,6 +71,7 @@ theorem shiftLow_cache_neg {e : Enc} (h : ¬ (e.low % U32 < 0xFF000000 ∨ (e.lo
 
 theorem shiftLow_pos {e : Enc} (h : e.low % U32 < 0xFF000000 ∨ (e.low / U32) % U32 ≠ 0) :
     shiftLow e = { low := (e.low % 16777216) * 256, cacheSize := 1, range := e.range, cache := (e.low / 16777216) % 256,
+                   outTotal := e.outTotal + e.cacheSize,
                    outRev := pushN (e.cacheSize - 1) (UInt8.ofNat ((0xFF + (e.low / U32) % 256) % 256))
                      (UInt8.ofNat ((e.cache + (e.low / U32) % 256) % 256) :: e.outRev) } := by
   unfold shiftLow; rw [if_pos h]
